@@ -121,6 +121,46 @@ pub fn run_case(c: &Value) -> Value {
     })
 }
 
+/// statements aimed at the rules the random generators rarely trigger (ConstantFolding, DeriveOrPredicates, FlattenDependentJoin,
+/// SubqueryDecorrelation, SemiJoinPushdown, HavingTotalCse, VectorSearchPushdown), over three small integer tables and a vector table
+pub fn gen_targets(r: &mut Rng, layout: &str) -> Value {
+    let mk = |r: &mut Rng, name: &str, cols: &[&str], n: usize| {
+        let rows: Vec<Vec<V>> = (0..n).map(|i| cols.iter().enumerate().map(|(ci, _)| if ci == 0 { V::I(i as i64 + 1) } else if r.chance(1, 9) { V::Null } else { V::I(r.below(4) as i64) }).collect()).collect();
+        Tbl::new(name, cols.iter().map(|c| (c.to_string(), CT::I64)).collect(), rows)
+    };
+    let np = 1 + r.below(9) as usize; let nq = r.below(9) as usize; let ns = 1 + r.below(5) as usize;
+    let mut tables = vec![mk(r, "p", &["pk", "pa", "pb", "pv"], np), mk(r, "q", &["qk", "qa", "qv"], nq), mk(r, "s", &["sk", "sa"], ns)];
+    let nv = 1 + r.below(6) as usize;
+    tables.push(Tbl::new("vt", vec![("vid".into(), CT::I64), ("emb".into(), CT::Vec(2))],
+        (0..nv).map(|i| vec![V::I(i as i64), V::Vecf(vec![r.below(5) as f32, r.below(5) as f32])]).collect()));
+    if layout == "pq" { for t in tables.iter_mut() { t.rg = *r.pick(&[0usize, 3]); } }
+    let k = r.below(4);
+    let templates: Vec<(&str, String)> = vec![
+        ("constfold", format!("SELECT pk, 1 + 2 AS c FROM p WHERE pa = 1 + 1 AND 2 > 1")),
+        ("constfold", format!("SELECT pk FROM p WHERE (1 = 1 AND pa >= {}) OR 1 = 2", k)),
+        ("derive_or", format!("SELECT pk, qk FROM p JOIN q ON pk = qk WHERE (pa = 1 AND qa = 2) OR (pa = 2 AND qa = 1)")),
+        ("derive_or", format!("SELECT pk, qk FROM p, q WHERE pk = qk AND ((pa = {} AND qa = 0) OR (pa = 3 AND qa = {}))", k, k)),
+        ("exists", format!("SELECT pk FROM p WHERE EXISTS (SELECT 1 FROM q WHERE qk = pk)")),
+        ("exists", format!("SELECT pk FROM p WHERE NOT EXISTS (SELECT 1 FROM q WHERE qk = pk AND qv >= {})", k)),
+        ("exists", format!("SELECT pk FROM p WHERE EXISTS (SELECT 1 FROM q WHERE qk = pk) AND NOT EXISTS (SELECT 1 FROM s WHERE sk = pk)")),
+        ("in_sub", format!("SELECT pk FROM p WHERE pa IN (SELECT qa FROM q WHERE qv >= {})", k)),
+        ("scalar_sub", format!("SELECT pk FROM p WHERE pv > (SELECT MIN(qv) FROM q)")),
+        ("scalar_sub", format!("SELECT pk FROM p WHERE pv >= (SELECT MAX(qv) FROM q WHERE qk = pk)")),
+        ("semi_push", format!("SELECT pk, sk FROM p JOIN s ON pa = sa WHERE pk IN (SELECT qk FROM q WHERE qv >= {})", k)),
+        ("semi_push", format!("SELECT pk, sk FROM p, s WHERE pa = sa AND EXISTS (SELECT 1 FROM q WHERE qk = pk)")),
+        ("having_total", format!("SELECT pa, SUM(pv) AS v FROM p JOIN q ON pk = qk GROUP BY pa HAVING SUM(pv) > (SELECT SUM(pv) FROM p JOIN q ON pk = qk) / 4")),
+        ("having_total", format!("SELECT pa, SUM(pv) AS v FROM p GROUP BY pa HAVING SUM(pv) >= (SELECT SUM(pv) FROM p)")),
+        ("knn", format!("SELECT vid FROM vt ORDER BY l2_distance(emb, ARRAY[1.0, {}.0]) LIMIT {}", k, 1 + k)),
+        ("knn", format!("SELECT vid, emb FROM vt ORDER BY cosine_distance(emb, ARRAY[1.0, 2.0]) LIMIT 2 OFFSET {}", k)),
+        ("agg_join", format!("SELECT pa, COUNT(*) AS n, SUM(qv) AS t FROM p JOIN q ON pk = qk GROUP BY pa")),
+        ("outer", format!("SELECT pk, qv FROM p LEFT JOIN q ON pk = qk WHERE pa >= {}", k)),
+        ("union", format!("SELECT pk AS x FROM p WHERE pa = {} UNION ALL SELECT qk AS x FROM q", k)),
+        ("distinct_sort", format!("SELECT DISTINCT pa FROM p ORDER BY pa LIMIT 3")),
+    ];
+    let (tag, sql) = r.pick(&templates).clone();
+    json!({"sql": sql, "tables": tables_json(&tables), "tags": [format!("s:t_{}", tag)]})
+}
+
 pub fn main(o: &Opts) {
     if o.get("bt").is_some() { std::panic::set_hook(Box::new(|info| eprintln!("PANIC {info}\n{}", std::backtrace::Backtrace::force_capture()))); }
     if let Some(p) = &o.replay { for c in replay_cases(p) { let i = run_case(&c); emit(c, i); } return; }
@@ -139,9 +179,12 @@ pub fn main(o: &Opts) {
         } else if n % 5 == 3 {
             let j = crate::fams::fam_c32::gen_case(&mut r, layout);
             json!({"kind": "rules", "src": "joins", "layout": layout, "sql": j["sql"], "otables": j["tables"], "tags": [format!("s:joins_{}", j["shape"].as_str().unwrap_or("?"))]})
-        } else {
+        } else if n % 10 == 4 {
             let j = crate::fams::fam_c03::gen_adversarial(&mut r, layout);
             json!({"kind": "rules", "src": "stats", "layout": layout, "sql": j["sql"], "otables": j["tables"], "tags": j["tags"]})
+        } else {
+            let j = gen_targets(&mut r, layout);
+            json!({"kind": "rules", "src": "targets", "layout": layout, "sql": j["sql"], "otables": j["tables"], "tags": j["tags"]})
         };
         let i = run_case(&case);
         emit(case, i);
